@@ -308,9 +308,110 @@ func c13ErrMentions(text string, f []string) bool {
 	return true
 }
 
+// ---------- Registry.Add on a tree that Add has rewritten ----------
+
+// c13AddView is what one Registry.Add (on an empty registry) makes of a tree.
+func c13AddView(tree *ast.SoyFileNode) (s string) {
+	defer func() {
+		if r := recover(); r != nil {
+			s = fmt.Sprint("PANIC: ", r)
+		}
+	}()
+	var reg template.Registry
+	if err := reg.Add(tree); err != nil {
+		return "error: " + err.Error()
+	}
+	var sb strings.Builder
+	for _, t := range reg.Templates {
+		fmt.Fprintf(&sb, "%s(", t.Node.Name)
+		for _, p := range t.Doc.Params {
+			fmt.Fprintf(&sb, "%s:%v@%d,", p.Name, p.Optional, p.Pos)
+		}
+		fmt.Fprintf(&sb, ")=%q\n", t.Node.Body.String())
+	}
+	return sb.String()
+}
+
+// c13Documented: every template whose body starts with {@param} nodes has a
+// SoyDoc node directly in front of it (Spec/Determinism.v headers_documented).
+func c13Documented(tree *ast.SoyFileNode) (documented bool, headers int) {
+	documented = true
+	for i, n := range tree.Body {
+		tn, ok := n.(*ast.TemplateNode)
+		if !ok || tn.Body == nil || len(tn.Body.Nodes) == 0 {
+			continue
+		}
+		if _, hp := tn.Body.Nodes[0].(*ast.HeaderParamNode); !hp {
+			continue
+		}
+		headers++
+		if i == 0 {
+			documented = false
+		} else if _, isDoc := tree.Body[i-1].(*ast.SoyDocNode); !isDoc {
+			documented = false
+		}
+	}
+	return
+}
+
+// c13Readd replays C13_add_of_rewritten_tree / C13_add_rewriting_idempotent on
+// the implementation: every file of the case is parsed once and the SAME tree is
+// handed to Registry.Add three times (each time to an empty registry).  Second
+// and third Add always agree; when every template with header params has a
+// SoyDoc in front they agree with the first as well (templates, params with
+// positions, bodies, or the error text).  A disagreement is a mismatch between
+// the model's account of Add's in-place rewriting and the code -- not a
+// violation of the property, which Bundle.Compile meets by parsing anew.
+func c13Readd(e *env, c *c13Case) {
+	for _, f := range c.Files {
+		tree, err := func() (t *ast.SoyFileNode, err error) {
+			defer func() {
+				if r := recover(); r != nil {
+					t, err = nil, fmt.Errorf("panic")
+				}
+			}()
+			return parse.SoyFile(f.Name, f.Text)
+		}()
+		if err != nil || tree == nil {
+			continue
+		}
+		documented, headers := c13Documented(tree)
+		v1 := c13AddView(tree)
+		v2 := c13AddView(tree)
+		v3 := c13AddView(tree)
+		e.res.Histogram["readd:files"]++
+		if headers > 0 {
+			e.res.Histogram["readd:files-with-header-params"]++
+		}
+		cs := c13Replay{Case: c13Case{Files: []srcFile{f}}}
+		if v2 != v3 {
+			x, y := c13Around(v2, v3)
+			e.res.Fail(hx.Violation{Kind: "mismatch", What: "Registry.Add is not idempotent on the tree it has rewritten (second and third Add of one tree differ; model: C13_add_rewriting_idempotent)",
+				Case: cs, Expected: hx.Q(x), Observed: hx.Q(y)}, "")
+			return
+		}
+		if documented {
+			if headers > 0 {
+				e.res.Histogram["readd:documented-header-params-compared"]++
+			}
+			if v1 != v2 {
+				x, y := c13Around(v1, v2)
+				e.res.Fail(hx.Violation{Kind: "mismatch", What: "Registry.Add of a tree it has rewritten before differs from the first Add although every template with header params has a soydoc in front (model: C13_add_of_rewritten_tree)",
+					Case: cs, Expected: hx.Q(x), Observed: hx.Q(y)}, "")
+				return
+			}
+		} else if v1 != v2 {
+			e.res.Histogram["readd:undocumented-header-params-lost-on-second-add"]++ // the refuted full statement, on the code
+		} else {
+			e.res.Histogram["readd:undocumented-same(error)"]++
+		}
+	}
+}
+
 // ---------- the comparison ----------
 
 func c13Model(e *env, c *c13Case, orders [][]int, first *c13Obs, reg *template.Registry) {
+	c13Readd(e, c)
 	if e.m == nil {
 		return
 	}
@@ -333,9 +434,9 @@ func c13Model(e *env, c *c13Case, orders [][]int, first *c13Obs, reg *template.R
 		}
 		fileSexps[i] = s
 	}
-	// the identity order and up to three others
+	// the identity order and up to two others
 	sel := [][]int{orders[0]}
-	for k := 0; k < 3 && len(orders) > 1; k++ {
+	for k := 0; k < 2 && len(orders) > 1; k++ {
 		sel = append(sel, orders[1+e.rng.Intn(len(orders)-1)])
 	}
 	for pi, p := range sel {
